@@ -85,6 +85,22 @@ func sameSlice[T any](a, b []T) bool {
 	return cap(a) == 0 || &a[:1][0] == &b[:1][0]
 }
 
+// sliceOf(a, b): a lies inside b: same backing array and within b's bounds.
+func sliceOf[T any](a, b []T) bool {
+	if len(a) == 0 {
+		return true
+	}
+	if len(b) == 0 {
+		return false
+	}
+	for i := range b {
+		if &b[i] == &a[0] {
+			return i+len(a) <= len(b)
+		}
+	}
+	return false
+}
+
 // sameValue(a, b): a and b are the same value, for types that Go cannot compare
 // with == (structs that hold slices). The verifier compares slice fields as
 // headers; when executed the comparison is by content (weaker).
